@@ -868,7 +868,7 @@ package main
 //@ end
 
 //@ func (*reflectInspector).obfuscatedObjectName
-//@   property C08
+//@   property C08 C14
 //@   hooks reflnames
 //@   requires ri != nil
 //@   skip safety
@@ -1331,4 +1331,21 @@ package main
 //@     invariant @the-forward-scan-only-crosses-path-runes-and-middle-dots: i > pkgEnd + asmPeriodLen ==> fwdRune == '·' || unicode.IsLetter(fwdRune) || unicode.IsDigit(fwdRune) || fwdRune == '_' || fwdRune == '∕'
 //@   loop 3
 //@     invariant @the-name-scan-only-crosses-identifier-runes: nameEnd > 0 ==> unicode.IsLetter(fwdRune) || unicode.IsDigit(fwdRune) || fwdRune == '_'
+//@ end
+
+// ---- C05/C09: which variables are exempt from literal obfuscation because -ldflags=-X targets them ----
+
+//@ hookset linkervars
+//@ hook before (*go/types.Scope).Lookup(sc, n)
+//@   assert("only-variables-of-the-package-the-flag-names-are-exempt", path == pkg.Path() || (path == "main" && pkg.Name() == "main"))
+//@   assert("the-flag-is-split-at-the-first-equals-and-the-last-dot", val == fullName + "=" + stringValue && !strings.Contains(fullName, "=") && path == fullName[:strings.LastIndexByte(fullName, '.')] && n == fullName[strings.LastIndexByte(fullName, '.')+1:])
+//@ hook before mvdan.cc/garble.flagValue(f, n)
+//@   assert("the-flags-are-the-ones-the-user-gave-to-the-go-command", n == "-ldflags" && ref(f) == ref(sharedCache.ForwardBuildFlags))
+//@ end
+
+//@ func computeLinkerVariableStrings
+//@   property C05 C09
+//@   hooks linkervars
+//@   requires pkg != nil && sharedCache != nil
+//@   skip safety
 //@ end
